@@ -27,12 +27,17 @@
   Member kinds, constructors / destructors, `noexcept` / `throw` / trailing return in the
   qualifier sequence, base-class flags: by the correspondence of the full parser model and
   the member-grammar oracle (named in the evidence; not proof).
+  * `C03_toplevel_access_specifier` (`Theorems/TopLevel.lean`): the same through one iteration of
+    the parse loop on the regenerated dispatch table: `public :` etc. in a class body ends with the
+    innermost class at the written access level, no callback, no doc text handed on.
 -/
 import CxxModel.Blocks
 import CxxModel.Theorems.Events
 import CxxModel.Theorems.MethodEnd
 import CxxModel.Theorems.AccessForm
 import CxxModel.Parser.Decl
+import CxxModel.Theorems.TopLevel
+import CxxModel.GenCfg
 namespace Cxx
 
 theorem C03_access_tracks (h : List BOp) (d : Nat) (hd : d < (brun h).length) :
@@ -116,5 +121,19 @@ theorem C03_access_outside_class (env : Env) (tok : CTok) (w : World) (blk : Blo
     (hstack : w.stack = blk :: rest) (hk : blk.view.kind ≠ .cls) :
     interp env (P.processAccessSpecifier tok) w = (w, .error (.parse ("unexpected '" ++ tok.value ++ "'") (some tok))) :=
   access_outside_class env tok w blk rest hstack hk
+
+section
+open P
+
+theorem C03_toplevel_access_specifier (env : Env) (hc : env.cfg = genLexCfg) (F : Nat) (c : Core) (w : World)
+    (kw colon : Tok) (b' : Buf) (blk : Block) (rest : List Block) (hstack : w.stack = blk :: rest) (hk : blk.view.kind = .cls)
+    (hkw : kw.type = "public" ∨ kw.type = "protected" ∨ kw.type = "private") (hcol : colon.type = ":")
+    (hy : Yields env.cfg w.buf [kw, colon] b') :
+    ∃ (w' : World), interp env (mainBody F c none) w = (w', .ok (.inl none)) ∧ w'.buf = b' ∧
+      w'.stack = { blk with access := some kw.value } :: rest ∧
+      w'.events = w.events ∧ w'.delivered = w.delivered ∧ w'.anon = w.anon ∧ w'.muted = w.muted :=
+  toplevel_access_specifier env (by rw [hc]; exact gen_rules_progress) F c w kw colon b' blk rest hstack hk hkw hcol hy
+
+end
 
 end Cxx
